@@ -53,6 +53,13 @@ def build_cases(tier):
                'x := NondetInt32(0)\ny := NondetInt32(1)\na := note(1)\nq := x / y\nb := note(2)\nprintln("q", a+b, q)',
                lambda inp: [('(not (= in_1 0))', [('n', ['1']), ('n', ['2']), ('q', ['3', '(let ((q (ite (>= in_0 0) (ite (> in_1 0) (div in_0 in_1) (- (div in_0 (- in_1)))) (ite (> in_1 0) (- (div (- in_0) in_1)) (div (- in_0) (- in_1)))))) (- (mod (+ q 2147483648) 4294967296) 2147483648))'])], 'normal'),
                             ('(= in_1 0)', [('n', ['1'])], ('panic', 'integer divide by zero'))]))
+    # constant dividend, variable divisor (quotient and remainder, signed and unsigned): the zero check stays
+    C.append(T('div_zero_const_dividend', '', 'y := NondetInt16(0)\nu := NondetUint8(1)\nprintln("a")\nk := NondetRange(2, 0, 3)\nswitch k {\ncase 0:\n\tprintln("q", 1000/int(y))\ncase 1:\n\tprintln("q", 1000%int(y))\ncase 2:\n\tprintln("q", 200/u)\ncase 3:\n\tprintln("q", uint32(7)%uint32(u))\n}',
+               lambda inp: [('(and (< in_2 2) (= in_0 0))', [('a', [])], ('panic', 'integer divide by zero')), ('(and (>= in_2 2) (= in_1 0))', [('a', [])], ('panic', 'integer divide by zero')),
+                            ('(and (= in_2 0) (not (= in_0 0)))', [('a', []), ('q', ['(ite (> in_0 0) (div 1000 in_0) (- (div 1000 (- in_0))))'])], 'normal'),
+                            ('(and (= in_2 1) (not (= in_0 0)))', [('a', []), ('q', ['(mod 1000 (ite (> in_0 0) in_0 (- in_0)))'])], 'normal'),
+                            ('(and (= in_2 2) (not (= in_1 0)))', [('a', []), ('q', ['(div 200 in_1)'])], 'normal'),
+                            ('(and (= in_2 3) (not (= in_1 0)))', [('a', []), ('q', ['(mod 7 in_1)'])], 'normal')]))
     C.append(T('type_assert', 'type stringer interface{ String() string }\ntype named int\nfunc (n named) String() string { return "named" }\n',
                'var v interface{}\nswitch NondetRange(0, 0, 3) {\ncase 0:\n\tv = 5\ncase 1:\n\tv = "s"\ncase 2:\n\tv = named(3)\n}\nprintln("a")\nprintln("i", v.(int))',
                lambda inp: [('(= in_0 0)', [('a', []), ('i', ['5'])], 'normal'), ('(not (= in_0 0))', [('a', [])], ('panic', 'interface conversion'))]))
